@@ -141,6 +141,19 @@ class Vertex(base.BaseObject):
         """
         return tuple(self._links)
 
+    def __getstate__(self):
+        """
+        State for pickling / copying: everything but the neighbor cache.
+
+        The cache is private bookkeeping that can always be recomputed, and
+        its keys hold the filter functions of earlier queries - objects the
+        user never attached to the graph and that need not be picklable at
+        all.  The copy starts with an empty cache of its own.
+        """
+        state = self.__dict__.copy()
+        state["_Vertex__qa_nb_cache"] = {}
+        return state
+
     def _qa_neighbors_get(self, *args):
         """
         Check for and return quick-access neighbors cache data.
